@@ -422,22 +422,29 @@ def cli_shared_stream(ctx, violations, n=24):
     cases, jobs, metas = [], [], []
     for k in range(n):
         cmds = [rnd.choice(insp) for _ in range(rnd.randrange(0, 5))]
+        safe = True
         if rnd.random() < 0.5:
             cmds.insert(rnd.randrange(len(cmds) + 1), rnd.choice(["step", "step into 2", "si 1"]))   # LEA, PUTS only
-        cmds.append(rnd.choice(["quit", "q", "QUIT"]))
+        if k % 3 == 2:
+            # anything goes: the program may read script text, the debugger may read program input (one stream)
+            safe = False
+            for _ in range(rnd.randrange(1, 4)):
+                cmds.insert(rnd.randrange(len(cmds) + 1), rnd.choice(["step into 3", "si 5", "continue", "step", "s", "c", "step into 4"]))
+        if safe or rnd.random() < 0.7:
+            cmds.append(rnd.choice(["quit", "q", "QUIT"]))
         sep = rnd.choice(["\n", ";", "\n", " ;\n"])
         script = sep.join(cmds) + rnd.choice(["\n", ";"])
         inp = "".join(rnd.choice("XYZ19 ") for _ in range(rnd.randrange(0, 5)))
-        src = [ord(c) for c in ECHO2]; st = [ord(c) for c in script]; ib = [ord(c) for c in inp]
-        nums = [0, 3000, len(src)] + src + [len(ib)] + ib + [0, 0, len(st)] + st
-        cases.append("DBGT " + " ".join(f"{v:x}" for v in nums))
+        src = [ord(c) for c in ECHO2]; stream = [ord(c) for c in script + inp]
+        nums = [0, 3000, len(src)] + src + [0, 0, len(stream)] + stream
+        cases.append("DBGS " + " ".join(f"{v:x}" for v in nums))
         jobs.append(lambda sc=script, i=inp: (clicommon.run_cli(exe, ["debug", f, "--minimal"], d, stdin=(sc + i).encode(), timeout=20),
                                               clicommon.run_cli(exe, ["run", f, "--minimal"], d, stdin=i.encode(), timeout=20)))
-        metas.append((script, inp))
+        metas.append((script, inp, safe))
     model = ctx.run_model(cases, tag="clishared")
     got = clicommon.parallel(jobs)
     cnt = bad = 0
-    for case, m, ((rc, so, se), (prc, pso, pse)), (script, inp) in zip(cases, model, got, metas):
+    for case, m, ((rc, so, se), (prc, pso, pse)), (script, inp, safe) in zip(cases, model, got, metas):
         fm, em = dbggen.decode_lines(m)
         sm = dbggen.split_first(fm) if fm not in ([9], [8]) else None
         if sm is None or sm["kind"] in (3, 4):
@@ -452,7 +459,7 @@ def cli_shared_stream(ctx, violations, n=24):
             why = f"exit status {rc}, model {want_rc}"
         elif out is None or out.rstrip("\n") != want_out.rstrip("\n"):
             why = "program output differs from the model"
-        elif rc != prc or out != pout:
+        elif safe and (rc != prc or out != pout):
             why = "debugged run differs from the plain run on the same input"
         if why:
             bad += 1
